@@ -281,8 +281,8 @@ class Ctx(object):
             text.append("From VC2 Require Import Base.CorrLib.")
             text.append(defs)
             tyann = (" : list (%s)" % ty) if ty else ""
-            text.append("Definition cases%s := [\n%s\n]." % (tyann, ";\n".join(sh_cases)))
             text.append("Definition chk := %s." % check)
+            text.append("Definition cases%s := cases_for chk [\n%s\n]." % (tyann, ";\n".join(sh_cases)))
             text.append("Eval vm_compute in (bad_indices chk cases).")
             jobs.append(("%s_%03d" % (name, k), "\n".join(text), k * shard, len(sh_cases)))
         bad, failed = [], False
